@@ -31,7 +31,7 @@ def demo_cmds(d, meta):
     envs = {k: v for k, v in envs.items() if k.startswith(('MYTH', 'LD_', 'OMP'))}
     m = re.search(r'timeout\s+(?:-\S+\s+)*(\d+)', run)
     tmo = int(m.group(1)) if m else 120
-    extra = [w for w in shlex.split(re.sub(r'\(.*?\)', '', build)) if w.startswith('-') and not w.startswith(('-I', '-L', '-Wl', '-o', '-l'))]
+    extra = [w for w in shlex.split(re.sub(r'\(.*?\)', '', build).replace('`', ' ')) if re.match(r'^-(O[0-3s]|g|std=[\w+]+|D\w+(=\S*)?|pthread|m[\w=-]+|f[\w=-]+|W[\w=-]+)$', w)]
     libs = [w for w in shlex.split(re.sub(r'\(.*?\)', '', build)) if w.startswith('-l')]
     if not any(l.startswith('-lmyth') or l == '-ldr' for l in libs):
         libs.append('-lmyth')
